@@ -80,9 +80,12 @@ ActHistoryGrows == [][history' = history \/ (Len(history') = Len(history) + 1 /\
 (* carries exactly the selected ones (others default).                     *)
 (***************************************************************************)
 MinSamples == 3
+\* (the property does not promise that the optimiser converges: the library's own minimisation error is a legitimate outcome of a
+\* fit on enough data -- C17 -- and then nothing is selected or exported)
 FitOutcomeOK(nsamples, grid, outcome, selected, exported, defaults) ==
   IF nsamples < MinSamples THEN outcome = "refused"
-  ELSE /\ outcome = "fitted"
-       /\ \A k \in DOMAIN grid : selected[k] \in grid[k]
-       /\ \A k \in DOMAIN exported : exported[k] = (IF k \in DOMAIN grid THEN selected[k] ELSE defaults[k])
+  ELSE \/ outcome = "minimization-failure"
+       \/ /\ outcome = "fitted"
+          /\ \A k \in DOMAIN grid : selected[k] \in grid[k]
+          /\ \A k \in DOMAIN exported : exported[k] = (IF k \in DOMAIN grid THEN selected[k] ELSE defaults[k])
 =============================================================================
